@@ -1,8 +1,400 @@
-(** C16 — interim property file: the local-equivalence lemmas are being proved. *)
-From DL Require Import Lib.Bytes Lua.Syntax Lua.Sem Lua.RunCheck.
+(** C16 - Optional refactoring rules preserve program behaviour.
+    Only statements, closed by [exact], with their assumptions printed and pinned.
+
+    LOCAL theorems about the Gallina models (Model/Refactor.v) of the rewrites performed by
+    group_local_assignment, convert_local_function_to_assign, convert_function_to_assignment,
+    remove_method_call and convert_square_root_call, against the reference interpreter
+    (Lua/Sem.v): for every dialect, fuel, environment, varargs and store.  Two forms:
+    - "if the original evaluates (without error, with fuel n) to this result and store, so does
+      the output for every fuel >= n + c" (the property quantifies over error-free original
+      runs; fuel monotonicity: Proof/LoweringFuel.v);
+    - same-fuel relations [res_rel] covering every outcome (closure-representation independence).
+    Stores are compared with [=] or, where the rewrite changes the record kept for a function
+    value (captured environment, method flag vs explicit [self], annotations), with [store_rel]
+    (Proof/RefactorSimDefs.v), which the interpreter provably cannot observe ([sim_*]).
+
+    NOT proved: the lifting of these local equivalences to whole programs (the traversal; for
+    group_local_assignment with second initialisers outside [frame_simple] and for function
+    paths with [__index] metamethods the equivalence holds only up to a renaming of store
+    addresses, which is not formalised).  Whole-program equivalence is VALIDATED on every run by
+    the translation-validation streams of vlib/c16.py (generated programs and templates pushed
+    through the real rules, run of the input vs run of the output in the Coq interpreter), and
+    the models are tied to the Rust code by the correspondence stream (block_eqb (model_rule IN)
+    OUT on templates hitting every arm). *)
+From Coq Require Import ZArith NArith List Bool String.
+From Coq Require Import Floats.SpecFloat.
+From DL Require Import Lib.Bytes Lib.F64 Lua.Syntax Lua.Sem Lua.EvalSpec Lua.RunCheck.
+From DL Require Import Model.Evaluator Model.Removal Model.Refactor.
+From DL Require Import Proof.EvaluatorF64 Proof.DefaultRulesSem Proof.RefactorSem Proof.RefactorSimDefs.
+From DL Require Import Proof.RefactorSoundCall Proof.RefactorSoundSqrt Proof.RefactorSoundFunction Proof.RefactorSoundGroup.
+From DL Require Import Proof.RefactorSim Proof.RefactorSimLocalFunction Proof.RefactorSoundFinal.
+Import ListNotations.
 Open Scope N_scope.
 
-Theorem C16_outcome_eqb_refl_nil : outcome_eqb (OutOk [] []) (OutOk [] []) = true.
-Proof. reflexivity. Qed.
-Print Assumptions C16_outcome_eqb_refl_nil.
-Check C16_outcome_eqb_refl_nil : outcome_eqb (OutOk [] []) (OutOk [] []) = true.
+(** remove_method_call, identifier receiver: [x:m(args)] and [x.m(x, args)] give the same values and the same store when reading [x] runs no code ([pure_ident]: a local, or a global of a globals table without metatable) and the lookup of [m] (which may run [__index]) leaves the binding of [x] alone. The receiver is evaluated once in the original, twice (without effect) in the output. *)
+Theorem C16_method_call_sound :
+  forall (d : dialect) (n : nat) (rho : env) (va : list value) (x : name) (m : bytes) 
+  (a : args) (s : store) (r : list value) (s' : store),
+  pure_ident rho x s ->
+  (forall (o : value) (k : nat) (f : value) (s1 : store),
+  reads rho x s o -> index d k o (VStr m) s = Ok f s1 -> reads rho x s1 o) ->
+  eval d n rho va (ECall (EIdent x) (Some m) a) s = Ok r s' ->
+  forall k : nat,
+  (n + 7 <= k)%nat -> eval d k rho va (rw_method_call (ECall (EIdent x) (Some m) a)) s = Ok r s'.
+Proof. exact method_call_sound. Qed.
+Print Assumptions C16_method_call_sound.
+Check C16_method_call_sound :
+  forall (d : dialect) (n : nat) (rho : env) (va : list value) (x : name) (m : bytes) 
+  (a : args) (s : store) (r : list value) (s' : store),
+  pure_ident rho x s ->
+  (forall (o : value) (k : nat) (f : value) (s1 : store),
+  reads rho x s o -> index d k o (VStr m) s = Ok f s1 -> reads rho x s1 o) ->
+  eval d n rho va (ECall (EIdent x) (Some m) a) s = Ok r s' ->
+  forall k : nat,
+  (n + 7 <= k)%nat -> eval d k rho va (rw_method_call (ECall (EIdent x) (Some m) a)) s = Ok r s'.
+
+Theorem C16_method_call_sound_quiet_lookup :
+  forall (d : dialect) (n : nat) (rho : env) (va : list value) (x : name) (m : bytes) 
+  (a : args) (s : store) (r : list value) (s' : store),
+  pure_ident rho x s ->
+  (forall (o : value) (k : nat) (f : value) (s1 : store),
+  reads rho x s o -> index d k o (VStr m) s = Ok f s1 -> s1 = s) ->
+  eval d n rho va (ECall (EIdent x) (Some m) a) s = Ok r s' ->
+  forall k : nat,
+  (n + 7 <= k)%nat -> eval d k rho va (rw_method_call (ECall (EIdent x) (Some m) a)) s = Ok r s'.
+Proof. exact method_call_sound_quiet_lookup. Qed.
+Print Assumptions C16_method_call_sound_quiet_lookup.
+Check C16_method_call_sound_quiet_lookup :
+  forall (d : dialect) (n : nat) (rho : env) (va : list value) (x : name) (m : bytes) 
+  (a : args) (s : store) (r : list value) (s' : store),
+  pure_ident rho x s ->
+  (forall (o : value) (k : nat) (f : value) (s1 : store),
+  reads rho x s o -> index d k o (VStr m) s = Ok f s1 -> s1 = s) ->
+  eval d n rho va (ECall (EIdent x) (Some m) a) s = Ok r s' ->
+  forall k : nat,
+  (n + 7 <= k)%nat -> eval d k rho va (rw_method_call (ECall (EIdent x) (Some m) a)) s = Ok r s'.
+
+(** literal receiver ([("s"):m(args)] -> [("s").m(("s"), args)]): no hypothesis. *)
+Theorem C16_method_call_literal_sound :
+  forall (d : dialect) (n : nat) (rho : env) (va : list value) (lit : expr) 
+  (m : name) (a : args) (s : store) (r : list value) (s' : store),
+  is_literal lit = true ->
+  eval d n rho va (ECall (EParen lit) (Some m) a) s = Ok r s' ->
+  forall k : nat,
+  (n + 7 <= k)%nat -> eval d k rho va (rw_method_call (ECall (EParen lit) (Some m) a)) s = Ok r s'.
+Proof. exact method_call_literal_sound. Qed.
+Print Assumptions C16_method_call_literal_sound.
+Check C16_method_call_literal_sound :
+  forall (d : dialect) (n : nat) (rho : env) (va : list value) (lit : expr) 
+  (m : name) (a : args) (s : store) (r : list value) (s' : store),
+  is_literal lit = true ->
+  eval d n rho va (ECall (EParen lit) (Some m) a) s = Ok r s' ->
+  forall k : nat,
+  (n + 7 <= k)%nat -> eval d k rho va (rw_method_call (ECall (EParen lit) (Some m) a)) s = Ok r s'.
+
+(** convert_square_root_call on numbers: [pow(x, 0.5) = sqrt(x)] except for [-0] and [-inf] ... *)
+Theorem C16_fpow_half_sqrt :
+  forall x : f64, valid x -> x <> neg_zero -> x <> neg_inf -> fpow x half_f = Some (fsqrt x).
+Proof. exact fpow_half_sqrt. Qed.
+Print Assumptions C16_fpow_half_sqrt.
+Check C16_fpow_half_sqrt :
+  forall x : f64, valid x -> x <> neg_zero -> x <> neg_inf -> fpow x half_f = Some (fsqrt x).
+
+(** ... and on expressions: [math.sqrt(e)] -> [e ^ 0.5] when [math] is not a local and the global [math.sqrt] is the library function: same values, same store, for arguments other than [-0] / [-inf] (carve-out) ... *)
+Theorem C16_sqrt_sound :
+  forall (d : dialect) (n : nat) (rho : env) (va : list value) (e : expr) (s : store) 
+  (r : list value) (s' : store),
+  lookup rho nm_math = None ->
+  math_pristine s ->
+  eval d n rho va (sqrt_call e) s = Ok r s' ->
+  (forall (k : nat) (vs : list value) (s1 : store) (x : f64),
+  eval d k rho va e s = Ok vs s1 ->
+  tonum (first vs) = Some x -> valid x /\ x <> neg_zero /\ x <> neg_inf) ->
+  forall k : nat, (n + 4 <= k)%nat -> eval d k rho va (EBinary BPow e half) s = Ok r s'.
+Proof. exact sqrt_sound. Qed.
+Print Assumptions C16_sqrt_sound.
+Check C16_sqrt_sound :
+  forall (d : dialect) (n : nat) (rho : env) (va : list value) (e : expr) (s : store) 
+  (r : list value) (s' : store),
+  lookup rho nm_math = None ->
+  math_pristine s ->
+  eval d n rho va (sqrt_call e) s = Ok r s' ->
+  (forall (k : nat) (vs : list value) (s1 : store) (x : f64),
+  eval d k rho va e s = Ok vs s1 ->
+  tonum (first vs) = Some x -> valid x /\ x <> neg_zero /\ x <> neg_inf) ->
+  forall k : nat, (n + 4 <= k)%nat -> eval d k rho va (EBinary BPow e half) s = Ok r s'.
+
+(** ... which is necessary (recorded finding, key convert_square_root_call:negative-zero-or-negative-infinity). *)
+Theorem C16_sqrt_refuted :
+  exists
+  (dl : dialect) (e : expr) (rho : env) (va : list value) (s : store) (r1 r2 : list value)
+  (s1 s2 : store),
+  lookup rho nm_math = None /\
+  math_pristine s /\
+  rw_sqrt [] (sqrt_call e) = EBinary BPow e half /\
+  eval dl 9 rho va (sqrt_call e) s = Ok r1 s1 /\
+  eval dl 13 rho va (EBinary BPow e half) s = Ok r2 s2 /\
+  r1 = [VNum neg_zero] /\ r2 = [VNum fzero] /\ r1 <> r2.
+Proof. exact sqrt_refuted. Qed.
+Print Assumptions C16_sqrt_refuted.
+Check C16_sqrt_refuted :
+  exists
+  (dl : dialect) (e : expr) (rho : env) (va : list value) (s : store) (r1 r2 : list value)
+  (s1 s2 : store),
+  lookup rho nm_math = None /\
+  math_pristine s /\
+  rw_sqrt [] (sqrt_call e) = EBinary BPow e half /\
+  eval dl 9 rho va (sqrt_call e) s = Ok r1 s1 /\
+  eval dl 13 rho va (EBinary BPow e half) s = Ok r2 s2 /\
+  r1 = [VNum neg_zero] /\ r2 = [VNum fzero] /\ r1 <> r2.
+
+(** Closure-representation independence of the reference interpreter: stores that differ only in details of closure records that [call] does not read ([clos_rel]: same parameter names, variadic flag and body; captured environments agree on the names the body mentions that are not parameters) and environments that agree on the names a piece of syntax mentions cannot be told apart - same fuel, every outcome. Function values are addresses, so values are compared with [eq]. [store_rel] keeps cells, tables, trace, oracle equal: observation (trace, rendered results) is equal. *)
+Theorem C16_sim_eval :
+  forall (d : dialect) (n : nat) (P : name -> bool) (rho1 rho2 : env) (va : list value) 
+  (e : expr) (s1 s2 : store),
+  covers_expr P e ->
+  env_agree P rho1 rho2 -> store_rel s1 s2 -> res_rel eq (eval d n rho1 va e s1) (eval d n rho2 va e s2).
+Proof. exact sim_eval. Qed.
+Print Assumptions C16_sim_eval.
+Check C16_sim_eval :
+  forall (d : dialect) (n : nat) (P : name -> bool) (rho1 rho2 : env) (va : list value) 
+  (e : expr) (s1 s2 : store),
+  covers_expr P e ->
+  env_agree P rho1 rho2 -> store_rel s1 s2 -> res_rel eq (eval d n rho1 va e s1) (eval d n rho2 va e s2).
+
+Theorem C16_sim_call :
+  forall (d : dialect) (n : nat) (f : value) (args : list value) (s1 s2 : store),
+  store_rel s1 s2 -> res_rel eq (call d n f args s1) (call d n f args s2).
+Proof. exact sim_call. Qed.
+Print Assumptions C16_sim_call.
+Check C16_sim_call :
+  forall (d : dialect) (n : nat) (f : value) (args : list value) (s1 s2 : store),
+  store_rel s1 s2 -> res_rel eq (call d n f args s1) (call d n f args s2).
+
+Theorem C16_sim_exec_stmts :
+  forall (d : dialect) (n : nat) (P : name -> bool) (rho1 rho2 : env) (va : list value) 
+  (ss : list stmt) (last : option laststmt) (s1 s2 : store),
+  (forall x : name, existsb (ment_stmt [x]) ss || optb (ment_last [x]) last = true -> P x = true) ->
+  env_agree P rho1 rho2 ->
+  store_rel s1 s2 -> res_rel eq (exec_stmts d n rho1 va ss last s1) (exec_stmts d n rho2 va ss last s2).
+Proof. exact sim_exec_stmts. Qed.
+Print Assumptions C16_sim_exec_stmts.
+Check C16_sim_exec_stmts :
+  forall (d : dialect) (n : nat) (P : name -> bool) (rho1 rho2 : env) (va : list value) 
+  (ss : list stmt) (last : option laststmt) (s1 s2 : store),
+  (forall x : name, existsb (ment_stmt [x]) ss || optb (ment_last [x]) last = true -> P x = true) ->
+  env_agree P rho1 rho2 ->
+  store_rel s1 s2 -> res_rel eq (exec_stmts d n rho1 va ss last s1) (exec_stmts d n rho2 va ss last s2).
+
+Theorem C16_sim_exec_block :
+  forall (d : dialect) (n : nat) (P : name -> bool) (rho1 rho2 : env) (va : list value) 
+  (b : block) (s1 s2 : store),
+  covers_block P b ->
+  env_agree P rho1 rho2 ->
+  store_rel s1 s2 -> res_rel eq (exec_block d n rho1 va b s1) (exec_block d n rho2 va b s2).
+Proof. exact sim_exec_block. Qed.
+Print Assumptions C16_sim_exec_block.
+Check C16_sim_exec_block :
+  forall (d : dialect) (n : nat) (P : name -> bool) (rho1 rho2 : env) (va : list value) 
+  (b : block) (s1 s2 : store),
+  covers_block P b ->
+  env_agree P rho1 rho2 ->
+  store_rel s1 s2 -> res_rel eq (exec_block d n rho1 va b s1) (exec_block d n rho2 va b s2).
+
+Theorem C16_store_rel_observation :
+  forall (s1 s2 : store) (vs : list value),
+  store_rel s1 s2 -> rev (trace s1) = rev (trace s2) /\ map (render 3 s1) vs = map (render 3 s2) vs.
+Proof. exact store_rel_observation. Qed.
+Print Assumptions C16_store_rel_observation.
+Check C16_store_rel_observation :
+  forall (s1 s2 : store) (vs : list value),
+  store_rel s1 s2 -> rev (trace s1) = rev (trace s2) /\ map (render 3 s1) vs = map (render 3 s2) vs.
+
+(** convert_local_function_to_assign: where the rule fires ([f] is a parameter or the body does not mention [f]), [local function f ... end] and [local f = function ... end] followed by ANY statements behave alike (same fuel, every outcome; stores related as above): the closure's captured environment differs by the binding of [f], which the body never looks up ... *)
+Theorem C16_local_function_sound :
+  forall (d : dialect) (n : nat) (rho : env) (va : list value) (x : name) (f : fbody) 
+  (rest : list stmt) (last : option laststmt) (s : store),
+  rw_local_function (SLocalFunction x f) <> SLocalFunction x f ->
+  (4 <= n)%nat ->
+  res_rel eq (exec_stmts d n rho va (SLocalFunction x f :: rest) last s)
+  (exec_stmts d n rho va (rw_local_function (SLocalFunction x f) :: rest) last s).
+Proof. exact local_function_sound. Qed.
+Print Assumptions C16_local_function_sound.
+Check C16_local_function_sound :
+  forall (d : dialect) (n : nat) (rho : env) (va : list value) (x : name) (f : fbody) 
+  (rest : list stmt) (last : option laststmt) (s : store),
+  rw_local_function (SLocalFunction x f) <> SLocalFunction x f ->
+  (4 <= n)%nat ->
+  res_rel eq (exec_stmts d n rho va (SLocalFunction x f :: rest) last s)
+  (exec_stmts d n rho va (rw_local_function (SLocalFunction x f) :: rest) last s).
+
+(** ... and the side condition is needed: for a recursive function the unguarded rewrite changes the result. *)
+Theorem C16_local_function_recursive_refuted :
+  exists
+  (d : dialect) (n : nat) (rho : env) (va : list value) (x : name) (f : fbody)
+  (rest : list stmt) (last : option laststmt) (s : store),
+  rw_local_function (SLocalFunction x f) = SLocalFunction x f /\
+  returned (exec_stmts d n rho va (SLocalFunction x f :: rest) last s) = Some [VNum (of_Z 0)] /\
+  is_err (exec_stmts d n rho va (SLocal false [Param x None] [EFunction f] :: rest) last s) = true.
+Proof. exact local_function_recursive_refuted. Qed.
+Print Assumptions C16_local_function_recursive_refuted.
+Check C16_local_function_recursive_refuted :
+  exists
+  (d : dialect) (n : nat) (rho : env) (va : list value) (x : name) (f : fbody)
+  (rest : list stmt) (last : option laststmt) (s : store),
+  rw_local_function (SLocalFunction x f) = SLocalFunction x f /\
+  returned (exec_stmts d n rho va (SLocalFunction x f :: rest) last s) = Some [VNum (of_Z 0)] /\
+  is_err (exec_stmts d n rho va (SLocal false [Param x None] [EFunction f] :: rest) last s) = true.
+
+(** convert_function_to_assignment: [function a.b.c(ps)] / [function a.b:m(ps)] vs the assignment of [function(ps)] / [function(self, ps)]. Same result, stores related as above (the record keeps the method flag vs an explicit [self] parameter; annotations dropped). For field paths: the base is read without effect and every field of the path but the last is present in its table ([path_raw]: no [__index] runs) - the statement allocates the closure before walking the path, the assignment after. *)
+Theorem C16_function_to_assign_sound :
+  forall (d : dialect) (n : nat) (rho : env) (va : list value) (base : name) 
+  (fields : list name) (method : option name) (f : fbody) (s : store) (r : env * signal)
+  (sL : store),
+  exec_stmt d n rho va (SFunction base fields method f) s = Ok r sL ->
+  (fields ++ opt_list method <> [] ->
+  exists o : value, reads rho base s o /\ path_raw (tables s) o (fields ++ opt_list method)) ->
+  exists m : nat,
+  forall j : nat,
+  (m <= j)%nat ->
+  exists sR : store,
+  exec_stmt d j rho va (rw_function_to_assign (SFunction base fields method f)) s = Ok r sR /\
+  store_rel sL sR.
+Proof. exact function_to_assign_sound_closed. Qed.
+Print Assumptions C16_function_to_assign_sound.
+Check C16_function_to_assign_sound :
+  forall (d : dialect) (n : nat) (rho : env) (va : list value) (base : name) 
+  (fields : list name) (method : option name) (f : fbody) (s : store) (r : env * signal)
+  (sL : store),
+  exec_stmt d n rho va (SFunction base fields method f) s = Ok r sL ->
+  (fields ++ opt_list method <> [] ->
+  exists o : value, reads rho base s o /\ path_raw (tables s) o (fields ++ opt_list method)) ->
+  exists m : nat,
+  forall j : nat,
+  (m <= j)%nat ->
+  exists sR : store,
+  exec_stmt d j rho va (rw_function_to_assign (SFunction base fields method f)) s = Ok r sR /\
+  store_rel sL sR.
+
+(** group_local_assignment: [local vars1 = vals1  local vars2 = vals2] vs the merged declaration, under the rule's guard [should_merge] (|vals1| = |vars1| or no values; no value of vals2 mentions a name of vars1) for second initialisers whose evaluation neither allocates nor reads freshly allocated cells ([frame_simple]: literals, locals of the enclosing scope, [...], parentheses, casts, [not]): same environment, same store, then the same continuation. *)
+Theorem C16_group_local_sound_partial :
+  forall (d : dialect) (n : nat) (rho : env) (va : list value) (k1 : bool) (vars1 : list param)
+  (vals1 : list expr) (k2 : bool) (vars2 : list param) (vals2 : list expr)
+  (rest : list stmt) (last : option laststmt) (s : store) (r : signal) (s' : store),
+  should_merge vars1 vals1 vals2 = true ->
+  forallb (frame_simple rho) vals2 = true ->
+  (forall (y : name) (c : N), lookup rho y = Some c -> (N.to_nat c < Datatypes.length (cells s))%nat) ->
+  (forall (k : nat) (vs : list value) (s1 : store),
+  eval_list d k rho va vals1 s = Ok vs s1 ->
+  (Datatypes.length (cells s) <= Datatypes.length (cells s1))%nat) ->
+  exec_stmts d n rho va (SLocal k1 vars1 vals1 :: SLocal k2 vars2 vals2 :: rest) last s = Ok r s' ->
+  exists m : nat,
+  forall j : nat,
+  (m <= j)%nat ->
+  exec_stmts d j rho va (SLocal k1 (vars1 ++ vars2) (merge_values vars1 vals1 vars2 vals2) :: rest)
+  last s = Ok r s'.
+Proof. exact group_local_sound_partial. Qed.
+Print Assumptions C16_group_local_sound_partial.
+Check C16_group_local_sound_partial :
+  forall (d : dialect) (n : nat) (rho : env) (va : list value) (k1 : bool) (vars1 : list param)
+  (vals1 : list expr) (k2 : bool) (vars2 : list param) (vals2 : list expr)
+  (rest : list stmt) (last : option laststmt) (s : store) (r : signal) (s' : store),
+  should_merge vars1 vals1 vals2 = true ->
+  forallb (frame_simple rho) vals2 = true ->
+  (forall (y : name) (c : N), lookup rho y = Some c -> (N.to_nat c < Datatypes.length (cells s))%nat) ->
+  (forall (k : nat) (vs : list value) (s1 : store),
+  eval_list d k rho va vals1 s = Ok vs s1 ->
+  (Datatypes.length (cells s) <= Datatypes.length (cells s1))%nat) ->
+  exec_stmts d n rho va (SLocal k1 vars1 vals1 :: SLocal k2 vars2 vals2 :: rest) last s = Ok r s' ->
+  exists m : nat,
+  forall j : nat,
+  (m <= j)%nat ->
+  exec_stmts d j rho va (SLocal k1 (vars1 ++ vars2) (merge_values vars1 vals1 vars2 vals2) :: rest)
+  last s = Ok r s'.
+
+(** Exact equality of stores is not available for arbitrary second initialisers (a call allocates a cell; the values agree, the cell order differs) - the reason the theorem is partial; observational equivalence of such programs is validated per run. *)
+Theorem C16_group_local_exact_refuted_call :
+  exists
+  (dl : dialect) (rho : env) (va : list value) (vars1 : list param) (vals1 : list expr)
+  (vars2 : list param) (vals2 : list expr) (last : option laststmt) (s : store)
+  (vs : list value) (s1 s2 : store),
+  should_merge vars1 vals1 vals2 = true /\
+  (forall (y : name) (c : N), lookup rho y = Some c -> (N.to_nat c < Datatypes.length (cells s))%nat) /\
+  exec_stmts dl 14 rho va [SLocal false vars1 vals1; SLocal false vars2 vals2] last s =
+  Ok (SigReturn vs) s1 /\
+  exec_stmts dl 14 rho va [SLocal false (vars1 ++ vars2) (merge_values vars1 vals1 vars2 vals2)] last
+  s = Ok (SigReturn vs) s2 /\
+  vs = [VNum (of_Z 1); VNum (of_Z 2)] /\
+  cells s1 = [VNum (of_Z 1); VNum (of_Z 2); VNum (of_Z 2)] /\
+  cells s2 = [VNum (of_Z 2); VNum (of_Z 1); VNum (of_Z 2)] /\ s1 <> s2.
+Proof. exact group_local_exact_refuted_call. Qed.
+Print Assumptions C16_group_local_exact_refuted_call.
+Check C16_group_local_exact_refuted_call :
+  exists
+  (dl : dialect) (rho : env) (va : list value) (vars1 : list param) (vals1 : list expr)
+  (vars2 : list param) (vals2 : list expr) (last : option laststmt) (s : store)
+  (vs : list value) (s1 s2 : store),
+  should_merge vars1 vals1 vals2 = true /\
+  (forall (y : name) (c : N), lookup rho y = Some c -> (N.to_nat c < Datatypes.length (cells s))%nat) /\
+  exec_stmts dl 14 rho va [SLocal false vars1 vals1; SLocal false vars2 vals2] last s =
+  Ok (SigReturn vs) s1 /\
+  exec_stmts dl 14 rho va [SLocal false (vars1 ++ vars2) (merge_values vars1 vals1 vars2 vals2)] last
+  s = Ok (SigReturn vs) s2 /\
+  vs = [VNum (of_Z 1); VNum (of_Z 2)] /\
+  cells s1 = [VNum (of_Z 1); VNum (of_Z 2); VNum (of_Z 2)] /\
+  cells s2 = [VNum (of_Z 2); VNum (of_Z 1); VNum (of_Z 2)] /\ s1 <> s2.
+
+(** The guards are needed: more values than variables (the defect repaired by the `fix:` commit e2101c3), and a second initialiser mentioning a variable of the first. *)
+Theorem C16_group_local_unguarded_refuted :
+  exists
+  (dl : dialect) (vars1 : list param) (vals1 : list expr) (vars2 : list param)
+  (vals2 : list expr) (last : option laststmt),
+  should_merge vars1 vals1 vals2 = false /\
+  rw_group_local [SLocal false vars1 vals1; SLocal false vars2 vals2] =
+  [SLocal false vars1 vals1; SLocal false vars2 vals2] /\
+  run_chunk dl 12 [] (Block [SLocal false vars1 vals1; SLocal false vars2 vals2] last) =
+  OutOk [] [RNum (to_bits (of_Z 3))] /\
+  run_chunk dl 12 []
+  (Block [SLocal false (vars1 ++ vars2) (merge_values vars1 vals1 vars2 vals2)] last) =
+  OutOk [] [RNum (to_bits (of_Z 2))].
+Proof. exact group_local_unguarded_refuted. Qed.
+Print Assumptions C16_group_local_unguarded_refuted.
+Check C16_group_local_unguarded_refuted :
+  exists
+  (dl : dialect) (vars1 : list param) (vals1 : list expr) (vars2 : list param)
+  (vals2 : list expr) (last : option laststmt),
+  should_merge vars1 vals1 vals2 = false /\
+  rw_group_local [SLocal false vars1 vals1; SLocal false vars2 vals2] =
+  [SLocal false vars1 vals1; SLocal false vars2 vals2] /\
+  run_chunk dl 12 [] (Block [SLocal false vars1 vals1; SLocal false vars2 vals2] last) =
+  OutOk [] [RNum (to_bits (of_Z 3))] /\
+  run_chunk dl 12 []
+  (Block [SLocal false (vars1 ++ vars2) (merge_values vars1 vals1 vars2 vals2)] last) =
+  OutOk [] [RNum (to_bits (of_Z 2))].
+
+Theorem C16_group_local_mention_refuted :
+  exists
+  (dl : dialect) (vars1 : list param) (vals1 : list expr) (vars2 : list param)
+  (vals2 : list expr) (last : option laststmt),
+  should_merge vars1 vals1 vals2 = false /\
+  rw_group_local [SLocal false vars1 vals1; SLocal false vars2 vals2] =
+  [SLocal false vars1 vals1; SLocal false vars2 vals2] /\
+  run_chunk dl 12 [] (Block [SLocal false vars1 vals1; SLocal false vars2 vals2] last) =
+  OutOk [] [RNum (to_bits (of_Z 1))] /\
+  run_chunk dl 12 []
+  (Block [SLocal false (vars1 ++ vars2) (merge_values vars1 vals1 vars2 vals2)] last) =
+  OutOk [] [RNil].
+Proof. exact group_local_mention_refuted. Qed.
+Print Assumptions C16_group_local_mention_refuted.
+Check C16_group_local_mention_refuted :
+  exists
+  (dl : dialect) (vars1 : list param) (vals1 : list expr) (vars2 : list param)
+  (vals2 : list expr) (last : option laststmt),
+  should_merge vars1 vals1 vals2 = false /\
+  rw_group_local [SLocal false vars1 vals1; SLocal false vars2 vals2] =
+  [SLocal false vars1 vals1; SLocal false vars2 vals2] /\
+  run_chunk dl 12 [] (Block [SLocal false vars1 vals1; SLocal false vars2 vals2] last) =
+  OutOk [] [RNum (to_bits (of_Z 1))] /\
+  run_chunk dl 12 []
+  (Block [SLocal false (vars1 ++ vars2) (merge_values vars1 vals1 vars2 vals2)] last) =
+  OutOk [] [RNil].
